@@ -17,9 +17,26 @@ import (
 // Result of one check-sat.
 // UFValue is one point of a harness-level uninterpreted function in a model.
 type UFValue struct {
-	Name string    `json:"name"`
-	Args []float64 `json:"args"`
-	Val  float64   `json:"val"`
+	Name string
+	Args []float64
+	Val  float64
+}
+
+// MarshalJSON writes the floats as IEEE bit patterns ("f:<hex>", the format of
+// model values): NaN and the infinities are legitimate objective values and
+// have no JSON number.
+func (u UFValue) MarshalJSON() ([]byte, error) {
+	bits := func(f float64) string { return fmt.Sprintf("f:%x", math.Float64bits(f)) }
+	var sb strings.Builder
+	sb.WriteString("{\"name\":" + strconv.Quote(u.Name) + ",\"args\":[")
+	for i, a := range u.Args {
+		if i > 0 {
+			sb.WriteString(",")
+		}
+		sb.WriteString("\"" + bits(a) + "\"")
+	}
+	sb.WriteString("],\"val\":\"" + bits(u.Val) + "\"}")
+	return []byte(sb.String()), nil
 }
 
 type Result struct {
@@ -218,10 +235,128 @@ func (p *Proc) Check(sc *Script, wantModel bool) (res Result) {
 		}
 		_ = order
 	}
+	if status == "sat" && wantModel && len(sc.FPApps) > 0 && p.cmd != nil {
+		// values of the harness objectives at the model's points (native replay)
+		seen := map[string]bool{}
+		var syms []string
+		add := func(n string) {
+			if !seen[n] {
+				seen[n] = true
+				syms = append(syms, n)
+			}
+		}
+		for _, a := range sc.FPApps {
+			add(a.Val)
+			for _, x := range a.Args {
+				add(x)
+			}
+		}
+		q := "(get-value (" + strings.Join(syms, " ") + "))\n(echo \"" + sentinel + "\")\n"
+		if _, err := io.WriteString(p.in, q); err == nil {
+			ml, ok := p.readUntilSentinel(30 * time.Second)
+			if !ok {
+				p.Kill()
+				res.Note = "model read failed"
+				return res
+			}
+			vals := map[string]float64{}
+			for _, top := range parseSexps(strings.Join(ml, " ")) {
+				for _, pair := range top.list {
+					if pair.list != nil && len(pair.list) == 2 {
+						if f, ok := parseFPValue(pair.list[1]); ok {
+							vals[pair.list[0].String()] = f
+						}
+					}
+				}
+			}
+			lookup := func(n string) (float64, bool) {
+				if f, ok := vals[n]; ok {
+					return f, true
+				}
+				// constants are printed inline by the encoder
+				for _, e := range parseSexps(n) {
+					return parseFPValue(e)
+				}
+				return 0, false
+			}
+			for _, a := range sc.FPApps {
+				e := UFValue{Name: a.Name}
+				v, ok := lookup(a.Val)
+				if !ok {
+					continue
+				}
+				e.Val = v
+				good := true
+				for _, x := range a.Args {
+					xv, ok := lookup(x)
+					if !ok {
+						good = false
+					}
+					e.Args = append(e.Args, xv)
+				}
+				if good {
+					res.UF = append(res.UF, e)
+				}
+			}
+		}
+	}
 	if p.cmd != nil {
 		io.WriteString(p.in, "(pop 1)\n")
 	}
 	return res
+}
+
+// parseFPValue reads a floating-point model value: (fp #b0 #b... #b...),
+// (_ +zero 11 53), (_ -oo 11 53), (_ NaN 11 53), ((_ to_fp 11 53) #x...)
+func parseFPValue(e *sexp) (float64, bool) {
+	if e == nil || e.list == nil {
+		return 0, false
+	}
+	l := e.list
+	if len(l) == 4 && l[0].atom == "fp" {
+		sg, ok1 := ParseBits(l[1].atom)
+		ex, ok2 := ParseBits(l[2].atom)
+		mn, ok3 := ParseBits(l[3].atom)
+		if !ok1 || !ok2 || !ok3 {
+			return 0, false
+		}
+		eb := len(l[2].atom) - 2
+		if strings.HasPrefix(l[2].atom, "#x") {
+			eb *= 4
+		}
+		if eb == 11 {
+			return math.Float64frombits(sg<<63 | ex<<52 | mn), true
+		}
+		if eb == 8 {
+			return float64(math.Float32frombits(uint32(sg<<31 | ex<<23 | mn))), true
+		}
+		return 0, false
+	}
+	if len(l) == 4 && l[0].atom == "_" {
+		switch l[1].atom {
+		case "+zero":
+			return 0, true
+		case "-zero":
+			return math.Copysign(0, -1), true
+		case "+oo":
+			return math.Inf(1), true
+		case "-oo":
+			return math.Inf(-1), true
+		case "NaN":
+			return math.NaN(), true
+		}
+	}
+	if len(l) == 2 && l[0].list != nil && len(l[0].list) == 4 && l[0].list[1].atom == "to_fp" {
+		u, ok := ParseBits(l[1].atom)
+		if !ok {
+			return 0, false
+		}
+		if l[0].list[2].atom == "11" {
+			return math.Float64frombits(u), true
+		}
+		return float64(math.Float32frombits(uint32(u))), true
+	}
+	return 0, false
 }
 
 // OneShot runs a fresh solver process on the script (NRA: non-incremental is
